@@ -1109,6 +1109,17 @@ def _walk(ctx):
         src = edge.src
         success = src.kind == 'return' and isinstance(
             src.ast.value, ast.Constant) and src.ast.value.value is True
+        if not success and src.kind == 'stmt' and isinstance(
+                src.ast, ast.Pass):
+            # the jump out of a spliced-in helper that answered True: the
+            # walk is left because a child took the instance
+            success = K.guarded_by(graph, src, lambda e: any(
+                a.key[0] == 'truth' and a.key[2] and '.put(' in a.key[1]
+                for a in nz.facts_of_edge(e)), start=head) and any(
+                    p.src.kind == 'stmt' and isinstance(
+                        p.src.ast, ast.Assign) and isinstance(
+                            p.src.ast.value, ast.Constant) and
+                    p.src.ast.value.value is True for p in src.pred)
         if success:
             ok = K.guarded_by(graph, src, lambda e: any(
                 a.key[0] == 'truth' and a.key[2] and '.put(' in a.key[1]
@@ -1204,17 +1215,34 @@ def _exact_fit(ctx, nz):
     lim = index.find_method(node_cls, 'check_app_affinity_limit')
     ctx.require(lim is not None, 'Node.check_app_affinity_limit')
     lapp = lim.params()[1]
-    for sub in K.walk_no_nested(lim.node):
-        if isinstance(sub, ast.Return) and sub.value is not None:
-            atom = nz.atom(K.rexpr(lim, sub.value))
-            want = N.cmp_atom(
-                ast.parse('self.affinity_counters[%s.affinity.name]' % lapp,
-                          mode='eval').body, '<',
-                ast.parse('%s.affinity.limits[self.level]' % lapp,
-                          mode='eval').body)
-            ctx.ob('C02.7', lim, sub, atom == want,
-                   'affinity head-room test is count < limit: %s' %
-                   N.show(atom))
+    want = N.cmp_atom(
+        ast.parse('self.affinity_counters[%s.affinity.name]' % lapp,
+                  mode='eval').body, '<',
+        ast.parse('%s.affinity.limits[self.level]' % lapp,
+                  mode='eval').body)
+    lgraph0 = ctx.cfg(lim)
+    lenv = K.func_env(lim)
+    nzl = N.Normaliser(nz.helpers, env=lenv)
+    for node in lgraph0.nodes:
+        if node.kind != 'return' or node.ast.value is None:
+            continue
+        sub = node.ast
+        if isinstance(sub.value, ast.Constant) and \
+                isinstance(sub.value.value, bool):
+            # the answer spelled out: True only under count < limit, False
+            # only under its negation
+            goal = want if sub.value.value else N.negate(want)
+            ok = K.guarded_by_atoms(
+                ctx, lim, lgraph0, node,
+                lambda a, g=goal: a.key == g.key, nzl, follow_exc=False)
+            ctx.ob('C02.7', lim, sub, ok,
+                   'affinity head-room test is count < limit: %s only '
+                   'under %s' % (sub.value.value, N.show(goal)))
+            continue
+        atom = nz.atom(N.subst(K.rexpr(lim, sub.value), lenv))
+        ctx.ob('C02.7', lim, sub, atom == want,
+               'affinity head-room test is count < limit: %s' %
+               N.show(atom))
 
 
 def _identity_release(ctx):
